@@ -230,6 +230,19 @@ func (t *strace) apply(o sop) bool {
 		}
 		s.stop()
 		delete(t.live, k)
+	case "selfattach":
+		// a Session call whose destination is the caller itself: refused, and nothing of it stays behind
+		s := newSrvSession(o.P, o.P)
+		t.all = append(t.all, s)
+		s.start(t.srv, true)
+		t.classes["self-addressed-call"] = true
+		t.hist = append(t.hist, fmt.Sprintf("selfattach(%d)", o.P))
+		waitFor(8*time.Second, func() bool { e, _ := s.ended(); return e })
+		if ended, err := s.ended(); !ended || err == nil {
+			t.classes["self-addressed-call-accepted"] = true
+		}
+		s.stop()
+		return true
 	case "anon":
 		// a Session call towards Q arriving without any authenticated stream identity: it must be refused and must
 		// not disturb anybody (in particular not take over the session of the peer that called last)
